@@ -1,6 +1,7 @@
 """C19 - tagged runs execute exactly the tagged tests; listing runs none."""
 import json
 import os
+import re
 import shutil
 import subprocess
 import sys
@@ -264,9 +265,12 @@ if __name__ == '__main__':
 '''
 
 
-def module_source(classes, logpath):
+def module_source(classes, logpath, before=None):
+    """`before`: {class index: source text placed before that class (len(classes) = after the last one)}"""
     parts = []
-    for c in classes:
+    for ci, c in enumerate(classes):
+        if before and before.get(ci):
+            parts.append(before[ci])
         base = classes[c['base']]['name'] if c['base'] is not None else 'ReferenceTestCase'
         body = []
         for ent in c['own']:
@@ -286,6 +290,8 @@ def module_source(classes, logpath):
         if not body:
             body = ['    pass\n']
         parts.append('%sclass %s(%s):\n%s' % ('@tag\n' if c['tag'] else '', c['name'], base, ''.join(body)))
+    if before and before.get(len(classes)):
+        parts.append(before[len(classes)])
     return MODULE_TEMPLATE % {'repo': core.REPO, 'log': logpath, 'classes': '\n'.join(parts)}
 
 
@@ -507,32 +513,100 @@ def oracle_run(case):
     return F
 
 
+CONFTEST = '''
+import sys
+sys.path.insert(0, %(repo)r)
+from tdda.referencetest import referencepytest
+
+
+def pytest_addoption(parser):
+    referencepytest.addoption(parser)
+
+
+def pytest_collection_modifyitems(session, config, items):
+    referencepytest.tagged(config, items)
+'''
+
+
+def pytest_cases(rng, n):
+    """the same kind of module collected by pytest through the library's collection filter, with module-level test
+    functions before, between and after the classes"""
+    out = []
+    for _ in range(n):
+        classes = [dict(c, own=[e[:2] for e in c['own']]) for c in gen_module(rng)]
+        funcs = [['test_fn%d' % i, rng.random() < 0.4, rng.randint(0, len(classes))] for i in range(rng.randint(0, 3))]
+        out.append({'kind': 'pytest', 'classes': classes, 'funcs': funcs, 'mode': rng.choice(['none', 'tagged', 'tagged', 'check'])})
+    return out
+
+
+def oracle_pytest(case):
+    F = []
+    fail = lambda clause, detail, key=None: F.append(core.Failure(clause, case, detail, key or clause))
+    d = tempfile.mkdtemp(prefix='c19p_')
+    try:
+        log = os.path.join(d, 'log.txt')
+        before = {}
+        for name, tg, pos in case['funcs']:
+            i = min(pos, len(case['classes']))
+            before[i] = before.get(i, '') + '%sdef %s():\n    _log("%s")\n' % ('@tag\n' if tg else '', name, name)
+        text = module_source(case['classes'], log, before).split("if __name__ == '__main__':")[0]
+        with open(os.path.join(d, 'test_mod.py'), 'w') as f:
+            f.write(text)
+        with open(os.path.join(d, 'conftest.py'), 'w') as f:
+            f.write(CONFTEST % {'repo': core.REPO})
+        args = {'none': [], 'tagged': ['--tagged'], 'check': ['--istagged']}[case['mode']]
+        p = subprocess.run(['/venv/bin/python', '-m', 'pytest', '-q', '-s', '-p', 'no:cacheprovider', 'test_mod.py'] + args,
+                           cwd=d, stdout=subprocess.PIPE, stderr=subprocess.PIPE, text=True, timeout=300,
+                           env=dict(os.environ, PYTHONPATH=core.REPO, PYTHONDONTWRITEBYTECODE='1'))
+        ran = sorted(l.strip() for l in open(log)) if os.path.exists(log) else []
+        tagged, check = case['mode'] == 'tagged', case['mode'] == 'check'
+        run, listed = expected_selection(case['classes'], tagged, check)
+        for name, tg, _ in case['funcs']:
+            if not check and (tg or not tagged):
+                run.append(name)
+        if 'error' in p.stdout.lower() and 'collect' in p.stdout.lower() and not ran and run:
+            raise RuntimeError('pytest could not collect the generated module: %s' % p.stdout[-400:])
+        if ran != sorted(run):
+            fail('pytest-executed', 'pytest %s executed %r expected %r' % (args, ran, sorted(run)), 'pytest-executed:' + case['mode'])
+        if check:
+            got = sorted(m.group(1) for m in re.finditer(r'^test_mod\.(\w+)\s*$', p.stdout, re.M))
+            want = sorted(listed + [name for name, tg, _ in case['funcs'] if tg])
+            if got != want:
+                fail('pytest-listed', 'pytest --istagged named %r expected %r' % (got, want), 'pytest-listed')
+        return F
+    finally:
+        shutil.rmtree(d, ignore_errors=True)
+
+
 class C19Full(C19):
     def corpus(self):
         base = super().corpus()
         n = self.n_sub_thorough if self.tier == 'thorough' else self.n_sub_quick
         runs = subprocess_cases(self.rng, n)
+        runs += pytest_cases(self.rng, max(8, n // 4))
         with ThreadPoolExecutor(16) as ex:
-            results = list(ex.map(oracle_run, runs))
+            results = list(ex.map(lambda c: oracle_pytest(c) if c['kind'] == 'pytest' else oracle_run(c), runs))
         self._run_results = {id(c): f for c, f in zip(runs, results)}
         self.count('subprocess_runs', len(runs))
         return base + runs
 
     def model_ops(self, case):
-        if case['kind'] == 'run':
+        if case['kind'] in ('run', 'pytest'):
             return []
         return super().model_ops(case)
 
     def nontrivial_key(self, case):
-        if case['kind'] == 'run':
-            self.count('kind_run')
-            return 'run:' + json.dumps(case, sort_keys=True)
+        if case['kind'] in ('run', 'pytest'):
+            self.count('kind_' + case['kind'])
+            return case['kind'] + ':' + json.dumps(case, sort_keys=True)
         return super().nontrivial_key(case)
 
     def oracle(self, case):
-        if case['kind'] == 'run':
+        if case['kind'] in ('run', 'pytest'):
             r = getattr(self, '_run_results', {}).get(id(case))
-            return r if r is not None else oracle_run(case)
+            if r is not None:
+                return r
+            return oracle_pytest(case) if case['kind'] == 'pytest' else oracle_run(case)
         return super().oracle(case)
 
 
